@@ -274,12 +274,18 @@ def part_mixed_user(_):
                ['type', 'Pct', '%', None],
                ['unit', 'Pct', '%vol', ['scaled', 'i:2', '%']],
                ['dtype', 'PPM', [['Money', 1], ['Mass', -1]], None, None],
-               ['unit', 'PPM', 'EUR/kg', ['derive', ['EUR', 'kg']]]):
+               ['unit', 'PPM', 'EUR/kg', ['derive', ['EUR', 'kg']]],
+               # a Python sub-class of a quantity type, with a reference unit
+               # of its own: a different quantity type
+               ['type', 'UBs', 'ubs0', None, 'UB'],
+               ['unit', 'UBs', 'kubs', ['scaled', 'i:1000', 'ubs0']],
+               # a type whose class has the name of a predefined one
+               ['type', 'Length#2', 'ell', None]):
         w.must(ev)
     from quantity.money import Money, MoneyConverter
     conv = MoneyConverter(w.units['EUR'], lambda: date(2020, 1, 1))
     conv.update(None, [(w.units['USD'], O.dec('D:1.25'), 1)])
-    mine = ['EUR', 'nr1', 'ub0', 'EUR/kg', '%', '%vol']
+    mine = ['EUR', 'nr1', 'ub0', 'EUR/kg', '%', '%vol', 'ubs0', 'kubs', 'ell']
     theirs = ['m', 'kg', '°C', 'B', 'kWh']
 
     def sweep(tag):
@@ -396,6 +402,8 @@ def run(tier, seed):
     amts = A.pick(tier, seed)
     if tier == 'quick':
         amts = amts[:9] + amts[-3:]
+    # a tiny decimal: sums across units need more than 64 fractional digits
+    amts = amts + ['D:1E-60']
     triples = [['i:1', 'D:-2.5', 'F:1/3'], ['D:1.005', 'F:-2/7', 'i:7'],
                ['D:0.000001', 'i:1000000000000', 'D:0.5']]
     parts = [(t, s) for t in O.LINEAR_TYPES for s in O.CATALOGUE[t][3]]
